@@ -1,4 +1,5 @@
 import LachesisVerif.Proofs.ElectionRefine
+import LachesisVerif.Model.Orderer
 /-!
 Single-election refinement (C10), part D: one `processRoot` call and whole runs (`runRoots`, the
 shape of `Orderer.processKnownRoots` / `knownRootsFrame`) refine the graph-level rules.
@@ -64,14 +65,14 @@ theorem processRoot_refines (S : Setup N vals f observe frameRoots) {el : Electi
   | ok r =>
     cases r with
     | some r =>
-      refine Or.inr ⟨el, some r, rfl, js, by intro h; cases h, ?_⟩
+      refine Or.inr ⟨el, some r, rfl, js, (by intro h; cases h), ?_⟩
       intro f' a h; cases h
       exact choose_some S.vals js f' a hc
     | none =>
       simp only
       by_cases hs : Gen.Election.skipOldRoot nr.frame el.frameToDecide = true
       · rw [if_pos hs]
-        refine Or.inr ⟨el, none, rfl, js, fun _ => ?_, by intro f' a h; cases h⟩
+        refine Or.inr ⟨el, none, rfl, js, fun _ => ?_, (by intro f' a h; cases h)⟩
         intro r hr hfr s hs'
         rcases List.mem_cons.1 hr with rfl | hr
         · exfalso
@@ -99,4 +100,153 @@ theorem processRoot_refines (S : Setup N vals f observe frameRoots) {el : Electi
           exact choose_some S.vals js' f' a hc2
 
 end Step
+/-- feed roots to one election until it returns something (the loop of `processKnownRoots`) -/
+def runRoots (observe : Nat → Nat → Bool) (frameRoots : Nat → List Root) :
+    Election → List Root → Except ElErr (Election × Option (Nat × Nat))
+  | el, [] => .ok (el, none)
+  | el, r :: rs =>
+    match processRoot observe frameRoots el r with
+    | .error x => .error x
+    | .ok (el', some res) => .ok (el', some res)
+    | .ok (el', none) => runRoots observe frameRoots el' rs
+
+/-- the Orderer's inner loop over known roots is `runRoots` -/
+theorem knownRootsFrame_eq (env : Model.Orderer.Env) (s : Model.Orderer.OState) (rs : List Root) (el : Election) :
+    Model.Orderer.knownRootsFrame env s rs el = runRoots env.observe (Model.Orderer.frameRoots s) el rs := by
+  induction rs generalizing el with
+  | nil => rfl
+  | cons r rest ih =>
+    simp only [Model.Orderer.knownRootsFrame, runRoots]
+    cases processRoot env.observe (Model.Orderer.frameRoots s) el r with
+    | error x => rfl
+    | ok p =>
+      obtain ⟨el', res⟩ := p
+      cases res with
+      | some x => rfl
+      | none => exact ih el'
+
+/-- every fed root is a root (frame below 2^32), and the roots of the previous frame it observes
+    (frames above the one to decide) were fed before it; `fed` = what was fed earlier -/
+def FeedClosed (observe : Nat → Nat → Bool) (frameRoots : Nat → List Root) (f : Nat) : List Root → List Root → Prop
+  | _, [] => True
+  | fed, r :: rs =>
+    (r ∈ frameRoots r.frame ∧ r.frame < 4294967296 ∧
+      ∀ p ∈ frameRoots (r.frame - 1), f < p.frame → observe r.id p.id = true → p ∈ fed) ∧
+    FeedClosed observe frameRoots f (r :: fed) rs
+
+/-- frame-ascending, complete lists of roots are closed feeds -/
+theorem feedClosed_of_ascending (observe : Nat → Nat → Bool) (frameRoots : Nat → List Root) (f : Nat)
+    (hfr : ∀ g p, p ∈ frameRoots g → p.frame = g) (rs : List Root) :
+    ∀ fed, rs.Pairwise (fun a b => a.frame ≤ b.frame) →
+      (∀ r ∈ rs, r ∈ frameRoots r.frame ∧ r.frame < 4294967296 ∧
+        ∀ p ∈ frameRoots (r.frame - 1), f < p.frame → p ∈ fed ∨ p ∈ rs) →
+      FeedClosed observe frameRoots f fed rs := by
+  induction rs with
+  | nil => intro _ _ _; trivial
+  | cons r rest ih =>
+    intro fed hpw hall
+    obtain ⟨hp1, hp2⟩ := List.pairwise_cons.1 hpw
+    obtain ⟨a, b, c⟩ := hall r List.mem_cons_self
+    refine ⟨⟨a, b, ?_⟩, ih (r :: fed) hp2 ?_⟩
+    · intro p hp hfp _
+      have hpf := hfr _ p hp
+      rcases c p hp hfp with h | h
+      · exact h
+      · rcases List.mem_cons.1 h with rfl | h
+        · omega
+        · have := hp1 p h; omega
+    · intro r' hr'
+      obtain ⟨a', b', c'⟩ := hall r' (List.mem_cons_of_mem _ hr')
+      refine ⟨a', b', fun p hp hfp => ?_⟩
+      rcases c' p hp hfp with h | h
+      · exact Or.inl (List.mem_cons_of_mem _ h)
+      · rcases List.mem_cons.1 h with rfl | h
+        · exact Or.inl List.mem_cons_self
+        · exact Or.inr h
+
+section Run
+variable {N : Net} {vals : Vals} {f : Nat} {observe : Nat → Nat → Bool} {frameRoots : Nat → List Root}
+
+theorem runRoots_refines (S : Setup N vals f observe frameRoots) (rs : List Root) :
+    ∀ (fed : List Root) (el : Election), JS N vals f frameRoots el → Stored f fed el →
+      FeedClosed observe frameRoots f fed rs →
+      (runRoots observe frameRoots el rs = .error .allNo ∧ ∀ v, v < N.nVals → N.DecidedNo f v) ∨
+      (∃ el' res, runRoots observe frameRoots el rs = .ok (el', res) ∧ JS N vals f frameRoots el' ∧
+        ∀ f' a, res = some (f', a) → f' = f ∧ N.IsAtropos f a) := by
+  induction rs with
+  | nil => intro fed el js _ _; exact Or.inr ⟨el, none, rfl, js, by intro f' a h; cases h⟩
+  | cons r rest ih =>
+    intro fed el js hst hfc
+    obtain ⟨⟨h1, h2, h3⟩, hrest⟩ := hfc
+    rcases processRoot_refines S js fed hst r h1 h2 h3 with ⟨he, hall⟩ | ⟨el', res, he, js', hst', hat⟩
+    · exact Or.inl ⟨by simp only [runRoots, he], hall⟩
+    · cases res with
+      | some x => exact Or.inr ⟨el', some x, by simp only [runRoots, he], js', hat⟩
+      | none =>
+        have e : runRoots observe frameRoots el (r :: rest) = runRoots observe frameRoots el' rest := by
+          simp only [runRoots, he]
+        rw [e]
+        exact ih (r :: fed) el' js' (hst' rfl) hrest
+
+/-- `C10_single_election_partial` (proof): from `reset`, any closed feed of roots -/
+theorem single_election (S : Setup N vals f observe frameRoots) (rs : List Root)
+    (hfc : FeedClosed observe frameRoots f [] rs) :
+    (runRoots observe frameRoots (reset vals f) rs = .error .allNo ∧ ∀ v, v < N.nVals → N.DecidedNo f v) ∨
+    (∃ el' res, runRoots observe frameRoots (reset vals f) rs = .ok (el', res) ∧ JS N vals f frameRoots el' ∧
+      ∀ f' a, res = some (f', a) → f' = f ∧ N.IsAtropos f a) :=
+  runRoots_refines S rs [] (reset vals f) (JS_reset N vals f frameRoots) (by intro r hr; cases hr) hfc
+
+end Run
+/-! ### the hypotheses `Setup` are satisfiable for every valid BFT history -/
+section Exists
+open Classical
+
+/-- canonical validator set of a net -/
+noncomputable def canonVals (N : Net) : Vals := { sorted := (List.range N.nVals).map (fun i => (i, N.w i)), total := N.total }
+
+/-- the roots of frame `g`, in position order -/
+noncomputable def rootsOf (N : Net) (g : Nat) : List Root :=
+  ((List.range N.h.length).filter (fun e => decide (N.IsRoot e g))).map (fun e => ⟨e, g, N.creator e⟩)
+
+theorem rootsOf_mem (N : Net) (g : Nat) (r : Root) :
+    r ∈ rootsOf N g ↔ (r.frame = g ∧ N.IsRoot r.id g ∧ r.validator = N.creator r.id) := by
+  unfold rootsOf
+  rw [List.mem_map]
+  constructor
+  · rintro ⟨e, he, rfl⟩
+    have := (List.mem_filter.1 he).2
+    exact ⟨rfl, by simpa using this, rfl⟩
+  · rintro ⟨h1, h2, h3⟩
+    refine ⟨r.id, List.mem_filter.2 ⟨List.mem_range.2 h2.1, by simpa using h2⟩, ?_⟩
+    cases r; simp only at h1 h3; simp only [Root.mk.injEq, true_and]; exact ⟨h1.symm, h3.symm⟩
+
+theorem rootsOf_nodup (N : Net) (g : Nat) : (rootsOf N g).Nodup := by
+  unfold rootsOf List.Nodup
+  rw [List.pairwise_map]
+  have : ((List.range N.h.length).filter (fun e => decide (N.IsRoot e g))).Nodup :=
+    List.Pairwise.filter _ List.nodup_range
+  exact List.Pairwise.imp (fun hne heq => hne (by simpa using congrArg Root.id heq)) this
+
+theorem canonVals_canon (N : Net) : Canon (canonVals N) N.nVals N.w := rfl
+
+theorem setup_exists (N : Net) (f : Nat) (hv : Valid N.nVals N.h) (hfa : N.FramesAccepted) (hbft : N.BFT)
+    (htot : N.total ≤ 2147483647) (hf : f < 4294967296) :
+    Setup N (canonVals N) f (fun a b => decide (N.FC a b)) (rootsOf N) :=
+  { vals := { canon := canonVals_canon N
+              total := by
+                show (C11.weights (canonVals N)).sum = N.total
+                rw [canon_weights (canonVals_canon N)]
+                unfold Net.total Net.weightOf
+                simp only [decide_true]
+                rw [List.filter_eq_self.2 (fun _ _ => rfl)]
+              limit := (C11.limit_is_maxint32 _).2 htot }
+    obs := fun a b => by simp
+    roots := rootsOf_mem N
+    nodup := rootsOf_nodup N
+    creators := fun e he => (valid_ev hv e he).creator_lt
+    slots := N.slotUnique_of_BFT hv hfa hbft
+    accepted := hfa
+    fbound := hf }
+
+end Exists
 end ElectionRefine
